@@ -2,3 +2,4 @@
 from autobahn.wamp.message import (Hello, Welcome, Abort, Challenge, Authenticate, Goodbye, Error, Publish, Published,
                                    Subscribe, Subscribed, Unsubscribe, Unsubscribed, Event, EventReceived, Call, Cancel,
                                    Result, Register, Registered, Unregister, Unregistered, Invocation, Interrupt, Yield)
+from autobahn.wamp.exception import ApplicationError
